@@ -11,7 +11,7 @@
      namespace ([l_user]) and one outside it ([l_ext]); for both: 0 = absent, 1 = present with the EMPTY value,
      n >= 2 = present with value "n". boltutil.WriteLabels drops empty-valued labels when it persists a label map
      ([norm]); the backend Mount of a Prepare sees the caller's map as passed. Names >= 1000 stand for strings that
-     cannot be bucket names (1000 = "", 1001 = longer than bolt's key limit): committing to such a name fails.
+     cannot be bucket names: committing to such a name fails.
    * Every API call is ONE op whose body is the sequence of the sub-steps the Go code performs
      (write transaction, directory operations, backend calls), written as separate functions below so that
      crash points (Model/SnapCrash.v) can cut between them.
@@ -28,15 +28,20 @@ Import ListNotations.
 Inductive kind := KView | KActive | KCommitted.
 Definition name := nat.
 
-Record labels := mkL { l_target : option name; l_remote : bool; l_user : nat; l_ext : nat }.
-Definition no_labels := mkL None false 0 0.
-Definition set_remote (l : labels) := mkL (l_target l) true (l_user l) (l_ext l).
-Definition bad_name (n : name) : bool := Nat.leb 1000 n.
+(* [l_wp] is not a label: it is the other option a caller can pass next to WithLabels, snapshots.WithParent(p)
+   (None = not passed). storage.CreateSnapshot ignores it; storage.CommitActive uses it to give a snapshot that was
+   created without parent its parent at commit time ("rebase"), and rejects it when it contradicts the parent the
+   snapshot has. It travels with the label record of the call and is carried along, unused, in what the model
+   stores as [i_labels]; no comparison looks at it. *)
+Record labels := mkL { l_target : option name; l_remote : bool; l_user : nat; l_ext : nat; l_wp : option name }.
+Definition no_labels := mkL None false 0 0 None.
+Definition set_remote (l : labels) := mkL (l_target l) true (l_user l) (l_ext l) (l_wp l).
+Definition bad_name (n : name) : bool := Nat.eqb n 1000.
 (* what metadata keeps of a label map: empty-valued entries are dropped *)
 Definition nz (n : nat) : nat := if Nat.eqb n 1 then 0 else n.
 Definition norm (l : labels) : labels :=
   mkL (match l_target l with Some t => if Nat.eqb t 1000 then None else Some t | None => None end)
-      (l_remote l) (nz (l_user l)) (nz (l_ext l)).
+      (l_remote l) (nz (l_user l)) (nz (l_ext l)) (l_wp l).
 Arguments norm : simpl never.
 
 Record info := mkI { i_id : nat; i_kind : kind; i_parent : option name; i_labels : labels }.
@@ -120,7 +125,7 @@ Fixpoint parents (fuel : nat) (m : list (name * info)) (p : name) : pres :=
           end
       end
   end.
-Definition fuel_of (s : st) : nat := S (seq s).
+Definition fuel_of (s : st) : nat := S (length (meta s)).
 
 (* ---------- directory and backend primitives ---------- *)
 Definition has_dir (s : st) (d : dirent) : bool := existsb (dirent_eqb d) (dirs s).
@@ -220,27 +225,39 @@ Definition create_snapshot (s : st) (k : kind) (key : name) (parent : option nam
   end.
 
 (* ---------- commit (one write transaction): storage.GetInfo, DiskUsage, storage.CommitActive ---------- *)
+(* parent of the committed snapshot: [ip] = parent of the active snapshot, [wp] = WithParent option of the commit *)
+Definition commit_parent (ip wp : option name) : err + option name :=
+  match ip, wp with
+  | None, _ => inr wp
+  | Some p, None => inr (Some p)
+  | Some p, Some q => if Nat.eqb p q then inr (Some p) else inl EInvalid
+  end.
+
 Definition commit_active (s : st) (nm key : name) (l : labels) (is_remote : bool) : st * option err :=
   if closed s then (s, Some EOther) else
   match lookup (meta s) key with
   | None => (s, Some ENotFound)
   | Some i =>
       if negb is_remote && negb (has_dir s (DId (i_id i))) then (s, Some EOther) else
-      if bad_name nm then (s, Some EOther) else      (* CreateBucket(name): empty / oversized key *)
+      if bad_name nm then (s, Some EOther) else      (* CreateBucket(""): bucket name required *)
       match lookup (meta s) nm with
       | Some _ => (s, Some EExists)
       | None =>
           if negb (kind_eqb (i_kind i) KActive) then (s, Some EFailedPre) else
-          let perr := match i_parent i with
-                      | None => None
-                      | Some p => match lookup (meta s) p with
-                                  | None => Some ENotFound
-                                  | Some pi => if kind_eqb (i_kind pi) KCommitted then None else Some EFailedPre
-                                  end
-                      end in
-          match perr with
-          | Some e => (s, Some e)
-          | None => (set_meta s ((nm, mkI (i_id i) KCommitted (i_parent i) l) :: del (meta s) key), None)
+          match commit_parent (i_parent i) (l_wp l) with
+          | inl e => (s, Some e)
+          | inr np =>
+              let perr := match np with
+                          | None => None
+                          | Some p => match lookup (meta s) p with
+                                      | None => Some ENotFound
+                                      | Some pi => if kind_eqb (i_kind pi) KCommitted then None else Some EFailedPre
+                                      end
+                          end in
+              match perr with
+              | Some e => (s, Some e)
+              | None => (set_meta s ((nm, mkI (i_id i) KCommitted np l) :: del (meta s) key), None)
+              end
           end
       end
   end.
